@@ -62,6 +62,9 @@ def analyse(facts, tier):
     ok = 'realTime_panic' in names and 'seek' in names and names.index('realTime_panic') < names.index('seek')
     obls.append(Obl('C08.R1', ps.name, 'panic before seek', ps.loc, 'discharged' if ok else 'finding', why='realTime_panic() precedes m_sequencer->seek()' if ok else 'notes are not silenced before the replay (%s)' % names))
     d = [o for o in order if o[0] == 'store delay']
+    sd_ps = single_defs(ps.d)
+    if d:
+        d = [d[0][:4] + (subst(d[0][4], sd_ps),)] + d[1:]       # the value may pass through a local that names it
     ok = bool(d) and short(callee_name(strip(d[0][4]))) == 'seek' and strip(strip(d[0][4])['a'][0]).get('id') == sec
     obls.append(Obl('C08.R1', ps.name, 'remaining wait becomes the next delay', d[0][3]['loc'] if d else ps.loc, 'discharged' if ok else 'finding', why='m_setup.delay = seek(seconds, mindelay)' if ok else 'the value returned by seek() is not stored as the next delay'))
     c = [o for o in order if o[0] == 'store carry']
@@ -482,6 +485,7 @@ def player_stores(facts, fn, depth=0, seen=None):
     if fn.name in seen:
         return out
     seen.add(fn.name)
+    fn = deref_view(fn, None)       # a store through `T &ch = m_midiChannels[i];` is a store to the member
     def member_of(t):
         t = strip(t)
         while isinstance(t, dict):
